@@ -324,7 +324,7 @@ def run(ctx):
     ctx.rule = RULE
     ctx.assumptions = ASSUMPTIONS
     binary = build.build("frontdump", "asan")
-    n = ctx.n(500, 12000)
+    n = ctx.n(800, 12000)
     core.pmap(lambda i: check_one(ctx, binary, i), range(n))
 
 
